@@ -1,2 +1,5 @@
 import AsphaltProofs.Lemmas.Assoc
 import AsphaltProofs.Props.C17
+import AsphaltProofs.Lemmas.Config
+import AsphaltProofs.Props.C16
+import AsphaltProofs.Props.C14
